@@ -5,6 +5,7 @@ import (
 	"encoding/json"
 	"flag"
 	"sort"
+	"strings"
 	"sync"
 	"time"
 
@@ -28,14 +29,22 @@ func init() { cli.Register("c16-deps", depsCmd) }
 
 type depStream struct {
 	grpc.ClientStream
-	ctx context.Context
-	ch  chan *api.DependencyDiscoveryResponse
+	ctx  context.Context
+	ch   chan *api.DependencyDiscoveryResponse
+	fail chan error
 }
 
 func (d *depStream) Recv() (*api.DependencyDiscoveryResponse, error) {
 	select {
+	case err := <-d.fail: // the dependency stream itself ends with an error of some kind
+		return nil, err
+	default:
+	}
+	select {
 	case m := <-d.ch:
 		return m, nil
+	case err := <-d.fail:
+		return nil, err
 	case <-d.ctx.Done():
 		return nil, d.ctx.Err()
 	}
@@ -62,13 +71,19 @@ func (c *epStream) Send(r *api.SvcEndpointDiscoveryRequest) error {
 func (c *epStream) Recv() (*api.SvcEndpointDiscoveryResponse, error) { return nil, c.st.Recv() }
 
 type depStub struct {
-	depCh chan *api.DependencyDiscoveryResponse
-	cfg   *fakeServer
-	ep    *fakeServer
+	depCh   chan *api.DependencyDiscoveryResponse
+	depFail chan error
+	mu      sync.Mutex
+	depReqs int // StreamDependencies calls
+	cfg     *fakeServer
+	ep      *fakeServer
 }
 
 func (s *depStub) StreamDependencies(ctx context.Context, in *api.DependencyDiscoveryRequest, opts ...grpc.CallOption) (api.DiscoveryService_StreamDependenciesClient, error) {
-	return &depStream{ctx: ctx, ch: s.depCh}, nil
+	s.mu.Lock()
+	s.depReqs++
+	s.mu.Unlock()
+	return &depStream{ctx: ctx, ch: s.depCh, fail: s.depFail}, nil
 }
 
 func (s *depStub) StreamSvcConfigs(ctx context.Context, opts ...grpc.CallOption) (api.DiscoveryService_StreamSvcConfigsClient, error) {
@@ -90,7 +105,8 @@ func (s *depStub) StreamSvcEndpoints(ctx context.Context, opts ...grpc.CallOptio
 // ---- scripts (environment-level steps of DiscoveryGen behaviours, or hand-written strata)
 
 type depStep struct {
-	A       string   `json:"a"` // dep | nsOK | nsFail | fail | silent | detect | send | hold
+	A       string   `json:"a"` // dep | depfail | nsOK | nsFail | fail | silent | detect | send | hold
+	Code    string   `json:"code,omitempty"`
 	Added   []string `json:"added,omitempty"`
 	Removed []string `json:"removed,omitempty"`
 	Sub     []string `json:"S,omitempty"`
@@ -137,7 +153,8 @@ type depSession struct {
 
 func newDepSession(deadline time.Duration) *depSession {
 	s := &depSession{deadline: deadline, deps: map[string]bool{}}
-	s.stub = &depStub{depCh: make(chan *api.DependencyDiscoveryResponse, 256), cfg: newFakeServer(), ep: newFakeServer()}
+	s.stub = &depStub{depCh: make(chan *api.DependencyDiscoveryResponse, 256), depFail: make(chan error, 4),
+		cfg: newFakeServer(), ep: newFakeServer()}
 	s.scopes = map[string]*fakeServer{"config": s.stub.cfg, "endpoint": s.stub.ep}
 	s.dc = config.NewVerifDiscoveryClient(s.stub)
 	s.handles = map[string]*config.VerifSvcClient{"config": s.dc.SvcConfigClient(), "endpoint": s.dc.SvcEndpointClient()}
@@ -289,8 +306,33 @@ func runDepScript(sc depScript, deadline time.Duration, attempt int) depResult {
 	res := depResult{ID: sc.ID, Kind: sc.Kind, Scale: scale, Attempt: attempt, DeadlineS: deadline.Seconds(),
 		Clients: map[string]outcome{}, SetDiffers: map[string]bool{}}
 	order := []string{"config", "endpoint"}
+	nfail := 0
+	kindOf := func(st depStep) string {
+		if strings.HasPrefix(sc.Kind, "stratum/") && st.Code != "" {
+			return st.Code // hand-written strata name the kind
+		}
+		k := failureKinds[(sc.ID+nfail)%len(failureKinds)] // TLC's behaviours carry no kind: rotate
+		nfail++
+		return k
+	}
 	for _, st := range sc.Steps {
 		switch st.A {
+		case "depfail":
+			// the dependency stream ends with an error; its client must ask for a new one (retry timer ~1 s)
+			s.stub.mu.Lock()
+			before := s.stub.depReqs
+			s.stub.mu.Unlock()
+			s.stub.depFail <- errOfKind(st.Code)
+			end := time.Now().Add(2500 * time.Millisecond)
+			for time.Now().Before(end) {
+				s.stub.mu.Lock()
+				n := s.stub.depReqs
+				s.stub.mu.Unlock()
+				if n > before {
+					break
+				}
+				time.Sleep(5 * time.Millisecond)
+			}
 		case "dep":
 			s.push(scaleNames(st.Added, scale), scaleNames(st.Removed, scale))
 			res.Messages++
@@ -310,18 +352,26 @@ func runDepScript(sc depScript, deadline time.Duration, attempt int) depResult {
 					}
 				}
 				f.mu.Lock()
-				f.answerNSLocked(st.A == "nsOK")
+				if st.A == "nsOK" {
+					f.answerNSLocked(true)
+				} else {
+					f.answerNSKindLocked(false, kindOf(st))
+				}
 				f.mu.Unlock()
 			}
 			s.settle(settleWindow)
 		case "fail", "silent", "detect":
+			kind := ""
+			if st.A == "fail" {
+				kind = kindOf(st)
+			}
 			for _, scope := range order {
 				f := s.scopes[scope]
 				f.mu.Lock()
 				var ok bool
 				switch st.A {
 				case "fail":
-					ok = f.failStreamLocked()
+					ok = f.failStreamKindLocked(kind)
 				case "silent":
 					ok = f.silentLocked()
 				default:
@@ -411,7 +461,7 @@ func runDepScript(sc depScript, deadline time.Duration, attempt int) depResult {
 		if !ok {
 			o.Stuck = true
 			d := diag{CallerBlocked: !res.Applied, StreamUp: f.upLocked(), PendNS: f.pendNS != nil, PendSend: f.pendSend != nil,
-				RetryOutstanding: f.retryOutstanding, Streams: len(f.streams), NSRequests: f.nsReqs}
+				RetryOutstanding: f.retryOutstanding, Streams: len(f.streams), NSRequests: f.nsReqs, LastFailKind: f.lastFailKind}
 			d.SubQ, d.UnsubQ, d.Cap = s.handles[scope].QueueLens()
 			d.LockFree = s.handles[scope].LockFree()
 			if f.cur != nil {
